@@ -75,7 +75,7 @@ func genCCResp(r *rand.Rand, bias string) []string {
 	add(0.15, "public")
 	add(0.1, "immutable")
 	pw := 0.25
-	if bias == "C20" || bias == "C16" {
+	if bias == "C20" || bias == "C16" || bias == "C05" {
 		pw = 0.6
 	}
 	if chance(r, pw) {
@@ -456,6 +456,9 @@ func fuzzDriver(r *run.Runner, prop string, n int) {
 				v4, a4 := mon.C04(w, in)
 				report(v4)
 				ante("C04", a4, "from-store-with-vary")
+				v5, a5 := mon.C05Body(w, in)
+				report(v5)
+				ante("C05", a5, "body-compared")
 				v6, nw := mon.C06(w, in)
 				report(v6)
 				ante("C06", nw > 0, "store-write")
